@@ -210,6 +210,13 @@ def two_handle_history(seed, steps=16):
                     out.append("set_param_q h0 9 %s" % qstr(v + d))      # QS_PARAM_OBJLLIM
                 else:
                     out.append("set_param_q h0 8 %s" % qstr(v - d))      # QS_PARAM_OBJULIM
+    if r.random() < .3:
+        # a limit of either kind, set while the objective sense was another one: the stored limits do not depend on the sense
+        out.append("set_param_q h0 %d %s" % (r.choice([8, 9]), qstr(F(r.randint(-20, 20), r.choice([1, 2, 3])))))
+        if r.random() < .6:
+            out.append("change_objsense h0 %s" % ("min" if lp["max"] else "max"))
+            if r.random() < .3:
+                out.append("change_objsense h0 %s" % ("max" if lp["max"] else "min"))
     out.append("dump h0")
     out.append("sol h0")
     out.append("copy h1 h0 thecopy")
